@@ -95,6 +95,10 @@ def model_exprs(kind, hist, n):
 
 def correspond(ctx):
     ctx.rules.append(RULE)
+    # layer sampling: the number of result columns of a run depends on the circuit of that run only (Params.run_layers)
+    from drivers import C16
+
+    C16.history_correspondence(ctx)
     cases = []
     for kind in ("strong", "analog", "weak"):
         for hist in ([False, True], [True, False], [True, False, True], [False, False, True, True], [True], [False]):
